@@ -225,11 +225,29 @@ def single_recipe(poly) -> dict:
                     for x, y in poly]], enc={'start_index': 0, 'fill': 'nan'})
 
 
-def do_dataset(ctx, recipe: dict, items: list, valid: bool, label: str, labels: list | None = None) -> None:
+def truth_cells(built) -> list:
+    """Ground truth of `dataset.ems.polygons` as vertex lists: the generator's polygon, or
+    None where the cell has no geometry — a hole of the grid, or a ring that is not a valid
+    polygon (`Convention.polygons` drops those)."""
+    cells = []
+    for p in built.polys:
+        if p is None:
+            cells.append(None)
+            continue
+        p = [tuple(v) for v in p]
+        cells.append(p if T.is_valid_ring(p) else None)
+    return cells
+
+
+def has_repeat(p) -> bool:
+    return len(set(p)) != len(p)
+
+
+def do_dataset(ctx, recipe: dict, items: list, label: str, labels: list | None = None) -> None:
     built = G.build(recipe)
+    cells = truth_cells(built)
     try:
         c = G.bind(built)
-        cells = [None if p is None else [tuple(v) for v in p] for p in built.polys]
         same = truth_matches(c, cells)
     except Exception:
         same = False
@@ -239,42 +257,29 @@ def do_dataset(ctx, recipe: dict, items: list, valid: bool, label: str, labels: 
     ctx.count(f'dataset:{label}')
     res, err = call_impl(built.ds)
     line = 'tri ' + cells_line(cells)
-    desc = {'recipe': recipe, 'op': 'tri', 'valid': valid}
-    if valid:
-        items.append((line, err if res is None else canon_impl(res), desc))
+    desc = {'recipe': recipe, 'op': 'tri'}
+    items.append((line, err if res is None else canon_impl(res), desc))
+    # a ring with a repeated vertex is a valid shapely polygon but not a cell the property speaks about
+    in_scope = not any(p is not None and has_repeat(p) for p in cells)
     for k, p in enumerate(cells):
-        if p is None:
-            ctx.count('cell:none')
-            continue
-        n = len(p)
-        kind = T.classify(p) if valid else 'malformed'
-        ctx.count(f'cell:{kind}:{n}')
         lab = labels[k] if labels else label
         ctx.count(f'src:{lab}')
-        if valid and (kind != 'convex' or n >= 5):
+        if p is None:
+            ctx.count('cell:none' + (':invalid-ring' if built.polys[k] is not None else ''))
+            if built.polys[k] is not None:
+                ctx.nontrivial(('invalid', tuple(tuple(v) for v in built.polys[k])))
+            continue
+        n = len(p)
+        kind = 'repeated-vertex' if has_repeat(p) else T.classify(p)
+        ctx.count(f'cell:{kind}:{n}')
+        if kind != 'convex' or n >= 5:
             x0, y0 = min(v[0] for v in p), min(v[1] for v in p)
             ctx.nontrivial(tuple((v[0] - x0, v[1] - y0) for v in p))
-    if not valid:
-        # only the unconditional clauses: an error, or n-2 triangles per cell whose signed areas add up
-        if res is None:
-            ctx.count(f'malformed:{err}')
-            ctx.evaluated()
-            if err not in ('ERR:noear',):
-                ctx.count(f'malformed-unexpected:{err}')
-            return
-        ctx.count('malformed:OK')
-        V = exact_vertices(res[0])
-        per = defaultdict(list)
-        for tri, face in zip(res[1], res[2]):
-            per[int(face)].append([V[int(i)] for i in tri])
-        for k, p in enumerate(cells):
-            if p is None:
-                continue
-            ts = '+'.join(ring_line(tr) for tr in per.get(k, [])) or '-'
-            items.append((f'propm {ring_line(p)} {ts}', 'OK', {'recipe': recipe, 'op': 'propm', 'cell': k, 'valid': False}))
+    if not in_scope:
+        ctx.count(f'out-of-scope:repeated-vertex:{err or "OK"}')
         return
     if res is None:
-        # a valid dataset must triangulate; find the offending cell for a minimal replay
+        # a dataset of valid cells must triangulate; find the offending cell for a minimal replay
         bad = None
         for k, p in enumerate(cells):
             if p is None:
@@ -285,38 +290,37 @@ def do_dataset(ctx, recipe: dict, items: list, valid: bool, label: str, labels: 
             if call_impl(b1.ds)[0] is None:
                 bad = (k, r1)
                 break
-        ctx.oracle_fail('raises-on-valid-cell', {'recipe': bad[1] if bad else recipe, 'op': 'tri', 'valid': True},
+        ctx.oracle_fail('raises-on-valid-cell', {'recipe': bad[1] if bad else recipe, 'op': 'tri'},
                         f'triangulate_dataset raised {err} on a dataset of simple polygons'
                         + (f' (cell {bad[0]}: {ring_line(cells[bad[0]])})' if bad else ''))
         return
     fails = oracle(cells, res)
     ctx.evaluated()
     for sig, k, msg in fails:
-        d = {'recipe': recipe, 'op': 'tri', 'valid': True}
-        if k is not None and sum(1 for p in cells if p is not None) > 1:
+        d = {'recipe': recipe, 'op': 'tri'}
+        if k is not None and cells[k] is not None and sum(1 for p in cells if p is not None) > 1:
             # shrink to the single offending cell when it fails on its own as well
             r1 = single_recipe(cells[k])
             b1 = G.build(r1)
             G.bind(b1)
             res1, _ = call_impl(b1.ds)
-            cells1 = [[tuple(v) for v in b1.polys[0]]]
+            cells1 = truth_cells(b1)
             if res1 is None or any(s == sig for s, _, _ in oracle(cells1, res1)):
-                d = {'recipe': r1, 'op': 'tri', 'valid': True}
+                d = {'recipe': r1, 'op': 'tri'}
         ctx.oracle_fail(sig, d, msg)
     # conclusions / hypotheses of the theorems on the real output, evaluated by the model
     V = exact_vertices(res[0])
     per = defaultdict(list)
-    ok_index = True
     try:
         for tri, face in zip(res[1], res[2]):
             per[int(face)].append([V[int(i)] for i in tri])
     except Exception:
-        ok_index = False
+        return
     for k, p in enumerate(cells):
-        if p is None or not ok_index:
+        if p is None:
             continue
         ts = '+'.join(ring_line(tr) for tr in per.get(k, [])) or '-'
-        d = {'recipe': recipe, 'op': 'prop', 'cell': k, 'valid': True}
+        d = {'recipe': recipe, 'op': 'prop', 'cell': k}
         items.append((f'prop {ring_line(p)} {ts}', 'OK', d))
         conv = geos_convex(p)
         items.append((f'convex {ring_line(p)}', conv, dict(d, op='convex')))
@@ -334,11 +338,11 @@ def run(ctx) -> None:
     items: list = []
 
     # (a) datasets of every convention, holes included
-    n_conv = ctx.budget(30, 200)
+    n_conv = ctx.budget(60, 400)
     for d in range(n_conv):
         conv = G.CONVS[d % len(G.CONVS)]
         recipe = G.random_recipe(rng, conv, ctx.tier)
-        do_dataset(ctx, recipe, items, True, f'conv:{conv}')
+        do_dataset(ctx, recipe, items, f'conv:{conv}')
 
     # (b) every rotation and both windings of every template with <= 8 sides (thorough: all)
     polys, labels = [], []
@@ -349,46 +353,46 @@ def run(ctx) -> None:
         for p in T.variants(tpl):
             polys.append(p)
             labels.append(f'template:{name}')
-    # random targeted polygons
-    n_rand = ctx.budget(500, 8000)
+    # random targeted polygons; a few invalid rings among them must come out as cells without geometry
+    n_rand = ctx.budget(2500, 30000)
     for _ in range(n_rand):
-        p, kind = T.random_valid(rng, 8 if rng.random() < 0.9 else 12)
-        if rng.random() < 0.3:
-            p = T.transform(rng, p)
+        if rng.random() < 0.04:
+            p, kind = T.random_malformed(rng)
+            if kind == 'bad:repeat':
+                continue
+        else:
+            p, kind = T.random_valid(rng, 8 if rng.random() < 0.9 else 12)
+            if rng.random() < 0.3:
+                p = T.transform(rng, p)
         polys.append(p)
         labels.append(kind)
     # (c) exhaustive lattice polygons
     if not ctx.searching:
-        for n in ([3, 4] + ([5] if ctx.thorough else [])):
+        for n in [3, 4, 5]:
             for p in T.lattice_polys(n):
                 polys.append(p)
                 labels.append(f'lattice3x3:{n}')
-        if ctx.thorough:
-            six = list(T.lattice_polys(6))
-            for p in rng.sample(six, min(len(six), 3000)):
-                polys.append(p)
-                labels.append('lattice3x3:6-sample')
-        else:
-            five = list(T.lattice_polys(5))
-            for p in rng.sample(five, min(len(five), 300)):
-                polys.append(p)
-                labels.append('lattice3x3:5-sample')
+        six = list(T.lattice_polys(6)) if ctx.thorough else []
+        for p in six:
+            polys.append(p)
+            labels.append('lattice3x3:6')
+        ctx.notes.append('exhaustive: every simple polygon with 3..%d vertices on the 3x3 lattice (all rotations, both windings)'
+                         % (6 if ctx.thorough else 5))
+    order = list(range(len(polys)))
+    rng.shuffle(order)      # mix sizes and kinds inside every dataset
     chunk = 80
-    for s in range(0, len(polys), chunk):
-        part = polys[s:s + chunk]
-        recipe = T.pack(part, rng)
-        do_dataset(ctx, recipe, items, True, 'packed', labels[s:s + chunk])
+    for s in range(0, len(order), chunk):
+        part = order[s:s + chunk]
+        recipe = T.pack([polys[k] for k in part], rng)
+        do_dataset(ctx, recipe, items, 'packed', [labels[k] for k in part])
 
-    # (d) malformed rings, one per dataset (an error aborts the whole call)
-    for _ in range(ctx.budget(60, 600)):
-        p, kind = T.random_malformed(rng)
-        if kind.startswith('gen:'):
-            continue
-        ctx.count(f'malformed-kind:{kind}')
-        try:
-            do_dataset(ctx, T.pack([p], enc={'start_index': 0, 'fill': 'nan'}), items, False, 'malformed')
-        except Exception as e:  # noqa  (shapely may refuse to build the ring at all)
-            ctx.count(f'malformed-unbuildable:{type(e).__name__}')
+    # (d) rings with a repeated vertex: valid for shapely, outside the property; one per dataset
+    # because an error aborts the whole call. Model and code are still compared.
+    for _ in range(ctx.budget(40, 400)):
+        p, kind = T.random_valid(rng, 7)
+        k = rng.randrange(len(p))
+        p = p[:k + 1] + [p[k]] + p[k + 1:]
+        do_dataset(ctx, T.pack([p], enc={'start_index': 0, 'fill': 'nan'}), items, 'repeated-vertex')
 
     if ctx.searching and ctx.driver is None:
         ctx.evaluated(len(items))
@@ -403,15 +407,12 @@ def replay(ctx, data) -> int:
 def run_one(ctx, inp: dict) -> dict:
     built = G.build(inp['recipe'])
     G.bind(built)
-    cells = [None if p is None else [tuple(v) for v in p] for p in built.polys]
+    cells = truth_cells(built)
     res, err = call_impl(built.ds)
     out = {'cells': cells_line(cells)}
     out['impl'] = err if res is None else canon_impl(res)
     if ctx.driver:
         out['model'] = ctx.model(['tri ' + cells_line(cells)])[0]
-    if res is not None and inp.get('valid', True):
+    if res is not None:
         out['oracle'] = [f'{s}: {m}' for s, _, m in oracle(cells, res)] or 'no clause of C14 fails'
-    if not inp.get('valid', True):
-        out.pop('model', None)
-        out['note'] = 'malformed ring: exact triangles are not compared, only count and signed area (op propm)'
     return out
